@@ -12,6 +12,9 @@ import (
 func c12(w []string) string {
 	return guard(func() string {
 		switch w[0] {
+		case "defaultg":
+			// the value used when the goroutine option is left at its default
+			return fmt.Sprintf("%d", rsec16.DefaultNumGoroutines())
 		case "params":
 			per, g := rsec16.VerifParallelParams(atoi(w[1]), atoi(w[2]), atoi(w[3]), atoi(w[4]))
 			return fmt.Sprintf("%d %d", per, g)
